@@ -35,6 +35,9 @@ type C18Case struct {
 	API   bool     `json:"api,omitempty"`
 	Roots []string `json:"set_root_calls,omitempty"`
 	Input string   `json:"api_input,omitempty"`
+	// PreRead: a file outside the final root that the same parser merges
+	// BEFORE the root is narrowed (legitimate); afterwards it must be out of reach
+	PreRead string `json:"api_pre_read,omitempty"`
 }
 
 var c18States = []string{"baseline", "rewrite", "corrupt", "delete", "directories", "dangling", "extra-files", "eacces", "empty", "blank"}
@@ -72,7 +75,7 @@ func genC18(r *gen.Rand) *C18Case {
 	input := "in.yaml"
 	vectors := []string{"parent-dotdot", "parent-absolute", "parent-wildcard", "parent-list", "symlink-relative", "symlink-absolute",
 		"symlink-chain", "dir-symlink", "symlink-name-parent", "input-dotdot", "virtual-ext", "parent-dotdot-sub",
-		"symlink-hops", "symlink-hops", "symlink-via-dirlink", "setroot-sibling-prefix", "setroot-through-dirlink", "parent-wildcard-dir"}
+		"symlink-hops", "symlink-hops", "symlink-via-dirlink", "setroot-sibling-prefix", "setroot-through-dirlink", "parent-wildcard-dir", "preread-then-narrow"}
 	c.Vector = gen.PickAny(r, vectors)
 	target := func(outside, inside string) string {
 		if c.Benign {
@@ -162,6 +165,19 @@ func genC18(r *gen.Rand) *C18Case {
 			c.Roots = append([]string{abs("W")}, c.Roots...)
 		}
 		c.Input = input2
+		c.NeedsOutside = !c.Benign
+	case "preread-then-narrow":
+		// a history on one parser: read a file while the root is still wide,
+		// narrow the root, then try to reach the same file again
+		rootSpelling = 0
+		c.API = true
+		c.PreRead = abs(c18Outside + "/d.yaml")
+		in["$parent"] = target("../outside/d", "base")
+		c.Roots = []string{abs(c18Root)}
+		if r.Chance(0.5) {
+			c.Roots = []string{abs("W"), abs(c18Root)}
+		}
+		c.Input = abs(c18Root + "/in.yaml")
 		c.NeedsOutside = !c.Benign
 	case "parent-wildcard-dir":
 		// a wildcard in a directory component: it can match a directory
@@ -286,8 +302,9 @@ func genC18(r *gen.Rand) *C18Case {
 	rest := append([]string{}, c18States[1:]...)
 	gen.Shuffle(r, rest)
 	c.States = append(c.States, rest[:r.Range(2, 4)]...)
-	if c.RootAll {
-		// nothing is outside "/": the only claim is that -r / changes nothing
+	if c.RootAll || c.PreRead != "" {
+		// nothing is outside "/": the only claim is that -r / changes nothing;
+		// a legitimate pre-read makes the result depend on the decoy by design
 		c.States = []string{"baseline"}
 	}
 	return c
@@ -434,7 +451,11 @@ func judgeC18(e *Env, c *C18Case, tag string, run int64) (*c18Obs, error) {
 			tool = "worker-stock"
 			req := &wire.Request{Run: run, Sched: wire.Sched{Mode: "Native"}}
 			var ops []wire.Op
-			for _, rt := range c.Roots {
+			for i, rt := range c.Roots {
+				if c.PreRead != "" && i == len(c.Roots)-1 {
+					// the legitimate read, just before the root is narrowed
+					ops = append(ops, wire.Op{Op: "MergeFile", Path: resolveAbs(root, c.PreRead)})
+				}
 				ops = append(ops, wire.Op{Op: "SetRoot", Path: resolveAbs(root, rt)})
 			}
 			ops = append(ops, wire.Op{Op: "MergeFileLayers", Path: resolveAbs(root, c.Input)}, wire.Op{Op: "Output", Format: "json"})
@@ -501,6 +522,9 @@ func judgeC18(e *Env, c *C18Case, tag string, run int64) (*c18Obs, error) {
 		}
 		// monitor: no successful open of a regular file outside the root
 		for _, p := range out.Opened {
+			if c.PreRead != "" {
+				break // the pre-read legitimately opened the decoy; only "the later attempt fails" is judged
+			}
 			if isOutside(p) {
 				if fi, err := os.Stat(p); err == nil && fi.Mode().IsRegular() {
 					return fail("opened-file-outside-root", state, p)
@@ -522,7 +546,7 @@ func judgeC18(e *Env, c *C18Case, tag string, run int64) (*c18Obs, error) {
 		if c.NeedsOutside && (ok || out.Stdout != "") {
 			return fail("escape-attempt-did-not-fail", state, fmt.Sprintf("status %d stdout %q", out.Status, short(out.Stdout, 300)))
 		}
-		if ok && strings.Contains(out.Stdout, "secret") && !c.RootAll {
+		if ok && strings.Contains(out.Stdout, "secret") && !c.RootAll && c.PreRead == "" {
 			return fail("outside-content-in-output", state, short(out.Stdout, 300))
 		}
 		if (c.Benign || c.RootAll) && !c.API && state == "baseline" && len(c.NoRootArgs) > 0 {
@@ -601,7 +625,7 @@ func RunC18(e *Env) (int, error) {
 	fn := func(run int64) harness.RunResult {
 		r := gen.New(e.Seed, "C18", run)
 		c := genC18(r)
-		if e.Thorough() && !c.RootAll {
+		if e.Thorough() && !c.RootAll && c.PreRead == "" {
 			c.States = append([]string{}, c18States...)
 		}
 		obs, err := judgeC18(e, c, "run", run)
